@@ -240,6 +240,30 @@ FUNCS = ["vf.targets.work", "vf.targets.block", "vf.targets.fail", "vf.targets.o
 CBS = ["vf.targets.ecb", "vf.targets.ccb", "vf.targets.aecb"]
 
 
+LAZY = ["vf.lazy.top.", "vf.lazy.l1.other.", "vf.lazy.l1.l2.jobs."]
+LAZY_CHAIN = ["vf.lazy", "vf.lazy.l1", "vf.lazy.l1.l2", "vf.lazy.l1.l2.jobs"]
+
+
+def set_import_state(depth):
+    """Forget the lazily loaded packages under vf.lazy and re-import the first `depth` levels of the chain:
+    the interpreter state in which a dotted path is resolved is an input of the translation."""
+    import sys
+
+    for name in [m for m in sys.modules if m == "vf.lazy" or m.startswith("vf.lazy.")]:
+        parent, _, leaf = name.rpartition(".")
+        if parent in sys.modules and hasattr(sys.modules[parent], leaf):
+            delattr(sys.modules[parent], leaf)
+        del sys.modules[name]
+    for name in LAZY_CHAIN[:depth]:
+        importlib.import_module(name)
+
+
+def _path(r, p):
+    if r.random() < 0.25:
+        return r.choice(LAZY) + p.rsplit(".", 1)[1]
+    return p
+
+
 def lit(v):
     return repr(v).replace(" ", "")
 
@@ -249,10 +273,10 @@ def domain(pname, rng, method=None):
     r = rng
     if pname == "func":
         p = r.choice(FUNCS + ["vf.targets.work"] * 3 + ["vf.targets.notcoro"])
-        return importlib.import_module("vf.targets").__dict__[p.rsplit(".", 1)[1]], p
+        return importlib.import_module("vf.targets").__dict__[p.rsplit(".", 1)[1]], _path(r, p)
     if pname in ("end_callback", "cancel_callback"):
         p = r.choice(CBS)
-        return importlib.import_module("vf.targets").__dict__[p.rsplit(".", 1)[1]], p
+        return importlib.import_module("vf.targets").__dict__[p.rsplit(".", 1)[1]], _path(r, p)
     if pname == "args":
         v = r.choice([(), (1,), (1, 2), ("x",), [3, 4], (None, True), ([1, 2],), ([1, 2],)])
         return v, lit(v)
@@ -272,10 +296,10 @@ def domain(pname, rng, method=None):
         v = r.choice([0, 1, 1, 2, 3, 5, -1] if pname == "num_concurrent" else [0, 1, 1, 2, 3, 5, -1, 10])
         return v, str(v)
     if pname in ("group_name", "msg"):
-        v = r.choice(["g1", "g2", "grp", "apply-work-group-0", "x_y", "G", "7", "start-group-0", "", "a\tb", "x\u00a0y", "ü\u3000z"])
+        v = r.choice(["g1", "g2", "grp", "apply-work-group-0", "x_y", "G", "7", "3", "10", "[1]", "abc", "one", "1.5", "0x", "1,2", "start-group-0", "", "a\tb", "x\u00a0y", "ü\u3000z"])
         return v, v
     if pname == "value":
-        v = r.choice([0, 1, 2, 3, 5, 10, -1, -7])
+        v = r.choice([0, 1, 2, 3, 5, 7, 10, -1, -7])
         return v, str(v)
     raise KeyError(pname)
 
@@ -294,7 +318,7 @@ def rep_domain(pname, rng):
         v = [rng.choice([0, 0, 1, 1, 2, 3, 5, 17, -1]) for _ in range(rng.choice([0, 1, 1, 2, 3]))]
         return v, [str(x) for x in v]
     if pname == "group_names":
-        v = [rng.choice(["g1", "g2", "grp", "nope", "apply-work-group-0", "start-group-0", "map-one-group-0", "", "a\tb"]) for _ in range(rng.choice([0, 1, 1, 2]))]
+        v = [rng.choice(["g1", "g2", "grp", "nope", "apply-work-group-0", "start-group-0", "map-one-group-0", "", "a\tb", "abc", "one", "5", "1.5"]) for _ in range(rng.choice([0, 1, 1, 2]))]
         return v, list(v)
     raise KeyError(pname)
 
